@@ -13,6 +13,20 @@ syntax (SV.C06.CpAst) and
 """
 import itertools
 import json
+import sys
+from contextlib import contextmanager
+
+
+@contextmanager
+def _deep():
+    """This module's OWN recursive helpers (build_expr, ev) walk 2049-term sums; the limit is raised only around
+    them and restored before the implementation runs, so that recursion errors of the implementation stay visible."""
+    old = sys.getrecursionlimit()
+    sys.setrecursionlimit(max(old, 20000))
+    try:
+        yield
+    finally:
+        sys.setrecursionlimit(old)
 
 from harness.core import VERIF, Ctx, cbool, clist, cnat, cz, guarded
 
@@ -186,7 +200,8 @@ def build_model(spec):
     track = []
     for c in spec["cons"]:
         try:
-            built = build_constraint(m, c, xs, style, track)
+            with _deep():
+                built = build_constraint(m, c, xs, style, track)
         except TypeError:
             return None
         if not isinstance(built, tuple):
@@ -888,8 +903,30 @@ def known_cases(rng, thorough):
         sp = {"vars": [[f"b{i}", 0, 1] for i in range(k)], "cons": [["sum_eq", list(range(k)), k + 1]]}
         out.append((sp, {"feasible": False}, [("auto", 1)], 60))
     # many variables without constraints (depth of the recursion), many constraints on one variable
-    n = 990 if T else rng.choice([257, 300, 600])
+    n = rng.choice([257, 300, 600])
     out.append(({"vars": [[f"f{i}", 0, 1] for i in range(n)], "cons": []}, {"feasible": True}, [("dfs", 1), ("sat", 2)], 30))
+    # beyond Python's default recursion limit (fixed by 6a89d67: one DFS frame per open variable, one _linearize
+    # step per operator): 1025+ open variables, sums of 1025+ terms (most of them over fixed variables, so that
+    # the search stays small while the expression is deep)
+    n = rng.choice([1025, 1100]) if not T else 2049
+    out.append(({"vars": [[f"f{i}", 0, 1] for i in range(n)], "cons": []}, {"feasible": True}, [("dfs", 1), ("auto", 1), ("sat", 1)], 120))
+    for k in ([rng.choice([1025, 1100])] if not T else [1100, 2049]):
+        step = k // rng.randint(8, 14)
+        vs, planted = [], []
+        for i in range(k):
+            if i % step == 0:
+                vs.append([f"t{i}", 0, 1])
+                planted.append(rng.randint(0, 1))
+            else:
+                x = rng.randint(-3, 3)
+                vs.append([f"t{i}", x, x])
+                planted.append(x)
+        ne = rng.random() < 0.3
+        tot = sum(planted)
+        sp = {"vars": vs, "cons": [["lin", _sumexpr(list(range(k))), K(tot), False]]}
+        out.append((sp, {"feasible": True}, [("dfs", 1), ("sat", 1), ("auto", 3)], 120))
+        sp = {"vars": vs, "cons": [["lin", K(tot + k), _sumexpr(list(range(k))), False]]}
+        out.append((sp, {"feasible": False}, [("dfs", 1), ("sat", 1)], 120))
     c = rng.choice([257, 1025, 2049])
     holes = rng.sample(range(c + 6), c)
     out.append(({"vars": [["g", 0, c + 5]], "cons": [["lin", V(0), K(h), True] for h in holes]},
@@ -926,6 +963,28 @@ def known_cases(rng, thorough):
     return out
 
 
+def regression_cases():
+    """corpus/C05/*.json with a "regression" descriptor: structured models too large to store literally."""
+    out = []
+    for o in _corpus():
+        r = o.get("regression")
+        if not r:
+            continue
+        n = r["n"]
+        if r["shape"] == "free_binary_variables":
+            sp = {"vars": [[f"x{i}", 0, 1] for i in range(n)], "cons": []}
+            out.append((sp, {"feasible": True}, [("dfs", 1), ("auto", 1), ("sat", 1)], 120))
+        elif r["shape"] == "sum_of_terms":
+            # x0 + ... + x(n-1) == total over variables that are fixed except every `step`-th (binary) one
+            vs = [[f"x{i}", 0, 1] if i % r["step"] == 0 else [f"x{i}", 1, 1] for i in range(n)]
+            fixed = sum(1 for i in range(n) if i % r["step"] != 0)
+            sp = {"vars": vs, "cons": [["lin", _sumexpr(list(range(n))), K(fixed + r["ones"]), False]]}
+            out.append((sp, {"feasible": True}, [("dfs", 1), ("sat", 1), ("auto", 1)], 120))
+        for sp, *_ in out:
+            sp["family"] = "S"
+    return out
+
+
 def judge_known(spec, known, solver, limit, out):
     """Oracle without brute force: feasibility (and the number of solutions) is known by construction; every returned
     assignment is evaluated directly (all variables of these models are named)."""
@@ -952,7 +1011,9 @@ def judge_known(spec, known, solver, limit, out):
             if not isinstance(x, int) or not lo <= x <= hi:
                 return f"value of {nm} = {x} outside {lo}..{hi}"
         for c in spec["cons"]:
-            if not holds(c, val):
+            with _deep():
+                ok = holds(c, val)
+            if not ok:
                 return f"returned assignment breaks {str(c)[:120]}: {str(sol)[:200]}"
         seen.add(tuple(val))
     if len(seen) != len(sols):
@@ -1304,7 +1365,7 @@ def run(ctx: Ctx):
     specs = []
     seen_events = {}
     for o in _corpus():
-        if o.get("candidate_finding"):
+        if o.get("candidate_finding") or o.get("regression"):
             continue
         specs.append({"vars": o["vars"], "cons": o["cons"], "hints": o.get("hints"), "family": "corpus"})
         for e in o.get("events", []):
@@ -1385,8 +1446,8 @@ def run(ctx: Ctx):
             ans_cases.append(term)
             ans_meta.append(sp)
 
-    # S: size thresholds, answers known by construction
-    for sp, known, settings, timeout in known_cases(ctx.rng, thorough):
+    # S: size thresholds, answers known by construction (plus the committed regression descriptors)
+    for sp, known, settings, timeout in known_cases(ctx.rng, thorough) + regression_cases():
         fam = {k: sp[k] for k in ("vars", "cons")}
         rec = explore_known(fam, known, settings, timeout)
         ctx.evaluations += rec["runs"]
@@ -1463,8 +1524,8 @@ def run(ctx: Ctx):
         "SAT budgets from 0 (MAX_ITER accepted only with an explicit budget), A caller objects and the Model unchanged by solve, "
         "answers independent of earlier solves on the same Model, duplicated constraints, H event-directed specs (reference port "
         "used for steering only)",
-        "size limits of the generator (observed on /repo, reported): nested expressions and open variables stay below ~990 "
-        "(deeper ones raise RecursionError in _linearize / backtrack)",
+        "models beyond Python's default recursion limit (1025..2049 open variables / terms of one sum) are part of the S family "
+        "since the fix 6a89d67",
     ]
 
 
